@@ -150,10 +150,16 @@ fn main() {
     // the registry of 37 does not hold it) -> triples (alpha, beta, SSE), one mask cell per component; also with series of
     // UNEQUAL length (iterator body: the common prefix; index body: the length assertion) and huge windows.
     for si in 0..(if thorough { 60 } else { 14 }) {
-        let len = match si { 0 => 0, 1 => 1, 2 => 2, _ => rng.range(1, 9) as usize };
-        let (xs, pat) = series(&mut rng, len, si % 2 == 0);
+        let len = match si { 0 => 0, 1 => 1, 2 => 2, _ => rng.range(3, 11) as usize };
+        let (mut xs, pat) = series(&mut rng, len, si % 2 == 0);
         let len2 = match si % 4 { 0 | 1 => len, 2 => len.saturating_sub(1 + (si % 3)), _ => len + 1 + si % 2 };
-        let (ys, _) = series(&mut rng, len2, si % 2 == 0);
+        let (mut ys, _) = series(&mut rng, len2, si % 2 == 0);
+        // two series in three are made (almost) null-free and the regressor strictly varying, so that the windows hold
+        // pairwise-complete observations with spread and the triples are numbers (otherwise every output is null)
+        if si % 3 != 0 {
+            for (i, x) in xs.iter_mut().enumerate() { if x.is_nan() && i % 5 != 4 { *x = rng.range(-12, 12) as f64 / 4.0 } }
+            for (i, y) in ys.iter_mut().enumerate() { if i % 7 != 6 { *y = (i as i64 * 3 + rng.range(0, 2)) as f64 / 4.0 } }
+        }
         let lens = if len2 == len { "equal" } else if len2 < len { "second_shorter" } else { "second_longer" };
         let mut ws: Vec<usize> = vec![1, 2, 3, len.max(1), len + 1];
         ws.sort(); ws.dedup();
